@@ -200,7 +200,11 @@ BLOCKS = {
     'hdr_comment': dict(ind='  ', hdr='  # header comment'),
     'blank_after_hdr': dict(ind='  ', after_hdr='\n'),
     'comment_after_hdr': dict(ind='  ', after_hdr='  # own line\n'),
+    'comment_then_blank_after_hdr': dict(ind='  ', after_hdr='  # own line\n\n'),
+    'blank_then_comment_after_hdr': dict(ind='  ', after_hdr='\n# own line, column 0\n'),
+    'comments_around_blank_after_hdr': dict(ind='  ', hdr='  # header comment', after_hdr='# c1\n\n   \n    # c2\n'),
     'blank_inside': dict(ind='  ', between='\n'),
+    'comment_then_blank_inside': dict(ind='  ', between='  # inside\n\n'),
     'comment_inside': dict(ind='  ', between='    # inside\n'),
     'comment_inside_col0': dict(ind='  ', between='# col0 comment\n'),
     'member_trailing_comment': dict(ind='  ', mpost='  # m'),
@@ -534,6 +538,42 @@ def check_lenient(name, res):
     res.w('lenient_layouts_agree')
 
 
+# --------------------------------------------------------------------- dynamic registration: block form == flat form
+DYNHEAD = 'from __gin__ import dynamic_registration\n'
+DYN_LAYOUT = {
+    # (texts parsed before, imports of the text under test, name used in it)
+    'first_use': ([], 'import c03late as w\n', 'w.late_widget'),
+    'registered_by_its_library': (['import c03late\n'], 'import c03late as w\n', 'w.late_widget'),
+    'second_alias': ([DYNHEAD + 'import c03late as first\nfirst.late_widget.a = 0\n'], 'import c03late as second\n', 'second.late_widget'),
+}
+
+
+def check_dyn_layout(name, res):
+  before, imports, sel = DYN_LAYOUT[name]
+  desc = ['dyn_layout', name]
+  outs = {}
+  forms = {'flat': '%s.a = 1\n%s.b = 2\n' % (sel, sel), 'block': '%s:\n  a = 1\n  b = 2\n' % sel,
+           'scoped_flat': 's/%s.a = 1\ns/%s.b = 2\n' % (sel, sel), 'scoped_block': 's/%s:\n  a = 1\n\n  b = 2\n' % sel}
+  for form, body in forms.items():
+    harness.hard_reset()
+    res.case(('dyn_layout', name, form), True)
+    try:
+      for t in before:
+        gin.parse_config(t)
+      gin.clear_config()
+      gin.parse_config(DYNHEAD + imports + body)
+      outs[form] = sorted((k[0], sorted(v.items())) for k, v in cfg._CONFIG.items())
+    except Exception as e:  # pylint: disable=broad-except
+      outs[form] = 'raised %r' % (e,)
+  want = {f: [('s' if f.startswith('scoped') else '', [('a', 1), ('b', 2)])] for f in forms}
+  bad = {f: v for f, v in outs.items() if v != want[f]}
+  if bad:
+    res.violation('stream_differs', '%r: with dynamic registration (history %r) the layouts %r of the same two bindings of %s '
+                  'give %r' % (desc, before, sorted(bad), sel, bad), desc)
+  else:
+    res.w('dynamic_block_equals_flat')
+
+
 NSH = 96
 
 
@@ -556,6 +596,9 @@ def run_shard(i, tier):
   for n, name in enumerate(LENIENT):
     if n % NSH == i:
       check_lenient(name, res)
+  for n, name in enumerate(DYN_LAYOUT):
+    if (n + 7) % NSH == i:
+      check_dyn_layout(name, res)
   harness.hard_reset()
   return res
 
@@ -566,6 +609,8 @@ def replay(desc):
     check_malformed(desc, res)
   elif desc[0] == 'lenient':
     check_lenient(desc[1], res)
+  elif desc[0] == 'dyn_layout':
+    check_dyn_layout(desc[1], res)
   else:
     check_list(desc[0], 'thorough', res)
   harness.hard_reset()
